@@ -1671,6 +1671,70 @@ def sc_dimarray_init(P):
     return out
 
 
+def joinable_axis(name, size, label):
+    """an Axis whose union / intersection with another one is a token - or, as in the library, one of the operands themselves when there is nothing to merge
+    (equal labels: a copy of the first; an empty operand: the other one)"""
+    ax = mk_axis(name, size, tok(label))
+
+    def join(kind):
+        def f(itp, o, a, k):
+            other = a[0]
+            if not (isinstance(other, Obj) and 'Axis' in other.types):
+                raise Raised('AttributeError')
+            if render(o.attrs['values']) == render(other.attrs['values']) and o.attrs['size'] == other.attrs['size']:
+                return o.methods['copy'](itp, o, [], {})
+            if o.attrs['size'] == 0:
+                return other
+            if other.attrs['size'] == 0:
+                return o
+            r = joinable_axis(o.attrs['name'], 9, '%s(%s, %s)' % (kind, render(o.attrs['values']), render(other.attrs['values'])))
+            return r
+        return f
+    ax.methods['union'] = join('UNION')
+    ax.methods['intersection'] = join('INTERSECTION')
+    inner_copy = ax.methods['copy']
+
+    def copy(itp, o, a, k):
+        c = joinable_axis(o.attrs['name'], o.attrs['size'], 'x')
+        c.attrs['values'] = o.attrs['values']
+        c.attrs['attrs'] = o.attrs.get('attrs')
+        return c
+    ax.methods['copy'] = copy
+    return ax
+
+
+def sc_aligned_axes(P):
+    """_get_aligned_axes: the common axes returned, and the inputs' own axes afterwards (sort=True must sort a copy)"""
+    out = []
+
+    def arr(name, spec):
+        axes = [joinable_axis(d, n, lab) for d, n, lab in spec]
+        return mk_array(P, name, None, None, axes=axes, values=mk_values('V_' + name, [n for _, n, _ in spec]), overrides=std_overrides(P))
+
+    def case(label, mk_arrays, **kw):
+        def mk():
+            arrays = mk_arrays()
+            return ([arrays], dict(kw), {'overrides': std_overrides(P), 'oracle': label_oracle,
+                                         'post': lambda itp, r: 'axes %s; inputs afterwards %s' % (render(r), render([x.attrs['axes'] for x in arrays]))})
+        out.append((label, mk))
+    two = lambda: [arr('A', [('x', 2, 'L_x'), ('y', 3, 'L_y')]), arr('B', [('x', 2, 'L_xB'), ('y', 3, 'L_y')])]
+    for sort in (False, True):
+        tag = 'sort=%s' % sort
+        case('two arrays, x differs (%s)' % tag, two, sort=sort)
+        case('one array (%s)' % tag, lambda: [arr('A', [('x', 2, 'L_x')])], sort=sort)
+        case('only one array has y (%s)' % tag, lambda: [arr('A', [('x', 2, 'L_x'), ('y', 3, 'L_y')]), arr('B', [('x', 2, 'L_xB')])], sort=sort)
+        case('an empty axis next to a full one (%s)' % tag, lambda: [arr('A', [('x', 0, 'EMPTY')]), arr('B', [('x', 2, 'L_xB')])], sort=sort)
+        case('a full axis next to an empty one (%s)' % tag, lambda: [arr('A', [('x', 2, 'L_x')]), arr('B', [('x', 0, 'EMPTY')])], sort=sort)
+        case('three arrays (%s)' % tag, lambda: two() + [arr('C', [('x', 2, 'L_xC')])], sort=sort)
+        case('three arrays, join=inner (%s)' % tag, lambda: two() + [arr('C', [('x', 2, 'L_xC')])], sort=sort, join='inner')
+    case('axis="y"', two, axis='y')
+    case('axis by position (invalid)', two, axis=0)
+    case('strict=True, same dimensions', two, strict=True)
+    case('strict=True, one array lacks y', lambda: [arr('A', [('x', 2, 'L_x'), ('y', 3, 'L_y')]), arr('B', [('x', 2, 'L_xB')])], strict=True)
+    case('disjoint dimensions', lambda: [arr('A', [('x', 2, 'L_x')]), arr('B', [('y', 3, 'L_y')])])
+    return out
+
+
 def sc_axes_from(P):
     """Axes.from_shape / from_arrays / from_dict called directly"""
     out = []
@@ -1701,6 +1765,7 @@ SCENARIOS = {
     'dimarray.core.axes.MultiAxis.values': (('C11',), sc_multiaxis(None, 'values')),
     'dimarray.core.axes.MultiAxis.size': (('C11',), sc_multiaxis(None, 'size')),
     'dimarray.core.align.align': ((), sc_align),         # the decision procedure of c06.rule_align (C04-R7, C06-R3, C12-R7, C13-R7)
+    'dimarray.core.align._get_aligned_axes': (('C06', 'C12'), sc_aligned_axes),
     'dimarray.core.align.stack': (('C12', 'C05'), sc_stack),
     'dimarray.core.align.concatenate': (('C12',), sc_concatenate),
     'dimarray.core.reshape.transpose': (('C10', 'C04', 'C12'), sc_transpose),
